@@ -266,7 +266,10 @@ def spec_axioms():
     ax.append(z3.ForAll([r, y, v, n], z3.Implies(iny, sumF1(Sr, n) == sumF1(r, n) + Ffun(v) - Ffun(oldr)), patterns=[sumF1(Sr, n)]))
     ax.append(z3.ForAll([r, y, v, n], z3.Implies(iny, sumFp1(Sr, n) == sumFp1(r, n) + z3.If(v > 0, Ffun(v), 0) - z3.If(oldr > 0, Ffun(oldr), 0)), patterns=[sumFp1(Sr, n)]))
     ax.append(z3.ForAll([r, y, v, n], z3.Implies(iny, sumFn1(Sr, n) == sumFn1(r, n) + z3.If(v < 0, Ffun(v), 0) - z3.If(oldr < 0, Ffun(oldr), 0)), patterns=[sumFn1(Sr, n)]))
-    ax.append(z3.ForAll([d, r, y, v, n], z3.Implies(iny, dot1(d, Sr, n) == dot1(d, r, n) + z3.Select(d, y) * (v - oldr)), patterns=[dot1(d, Sr, n)]))
+    # products of two symbolic reals are kept uninterpreted (umul), in distributed form: d[y]*v - d[y]*r[y]
+    ax.append(z3.ForAll([d, r, y, v, n], z3.Implies(iny, dot1(d, Sr, n) == dot1(d, r, n) + umul(z3.Select(d, y), v) - umul(z3.Select(d, y), oldr)), patterns=[dot1(d, Sr, n)]))
+    _ra = z3.Real('ra0_')
+    ax.append(z3.ForAll([_ra], z3.And(umul(_ra, z3.RealVal(0)) == 0, umul(z3.RealVal(0), _ra) == 0), patterns=[umul(_ra, z3.RealVal(0)), umul(z3.RealVal(0), _ra)]))
     # replacing row x of M by r
     SM = z3.Store(M, x, r)
     oldrow = z3.Select(M, x)
